@@ -45,8 +45,20 @@ if [ "$prop" = C18 ] && [ "$tier" = quick ]; then
   # as ./check C18 quick: baton search, then the small Miri batch
   rc=0; "$work/target/release/b3sim" run --prop C18 --tier quick --part sim "$@" || rc=$?
   [ $rc -ne 0 ] && exit $rc
+  ( cd "$work/sim" && cargo build --offline --release --no-default-features --target-dir "$work/target_lean" >"$work/build_lean.log" 2>&1 ) || { echo "BUILD FAILED (lean)"; tail -5 "$work/build_lean.log"; exit 2; }
+  "$work/target_lean/release/b3sim" run --prop C18 --tier quick --part lean --scale 0.3 "$@" || exit $?
   python3 /verif/tools/miri_tier.py C18 "${VERIF_SEED:-1}" --tier quick --repo "$repo"; rc=$?
   rm -rf "/tmp/miri_tier.$(basename "$repo")"
   exit $rc
 fi
+case "$prop" in
+  C02|C03|C09|C10|C11|C16|C17)
+    # as ./check: default build, then the lean build (blake3 without rayon, mmap, zeroize, serde) on a third of the runs
+    rc=0; "$work/target/release/b3sim" run --prop "$prop" --tier "$tier" --part default "$@" || rc=$?
+    [ $rc -ne 0 ] && exit $rc
+    ( cd "$work/sim" && cargo build --offline --release --no-default-features --target-dir "$work/target_lean" >"$work/build_lean.log" 2>&1 ) || { echo "BUILD FAILED (lean)"; tail -5 "$work/build_lean.log"; exit 2; }
+    "$work/target_lean/release/b3sim" run --prop "$prop" --tier "$tier" --part lean --scale 0.3 "$@"
+    exit $?
+    ;;
+esac
 "$work/target/release/b3sim" run --prop "$prop" --tier "$tier" "$@"
